@@ -16,7 +16,7 @@ from ..symx import Expander, TupleV
 from ..anf import R, Unsupported
 from .. import anf, units
 from ..units import Lin, BOOL, num
-from .common import struct_ob, formula_ob, guard, last_return, U
+from .common import memo_obligations, dtype_hazard_obligations, struct_ob, formula_ob, guard, last_return, U
 from .C12 import units_obligations
 from ..report import AnalysisError
 from ..term import Resolver, pmatch, find_all, abstract, anf_of
@@ -24,7 +24,7 @@ from ..term import Resolver, pmatch, find_all, abstract, anf_of
 BASE = "inference/pdf/base.py"
 KDE = "inference/pdf/kde.py"
 UNI = "inference/pdf/unimodal.py"
-FLOORS = {"units": 3, "units-result-types": 3, "hdi-cost-form": 1, "mode-is-argmax": 2, "quadrature-weights": 3,
+FLOORS = {"mirror-symmetric-limits": 2, "float-arithmetic": 3, "units": 3, "units-result-types": 3, "hdi-cost-form": 1, "mode-is-argmax": 2, "quadrature-weights": 3,
           "normaliser-consistent": 2, "cdf-ordering": 1}
 
 EXPECTED = {"__call__": "Lin(-1,0)", "cdf": "Lin(0,0)", "interval": "Tup(Lin(1,1), Lin(1,1))",
@@ -56,6 +56,55 @@ def _sync_state(init, uc, prog):
                         state["norm"] = pmatch(rz.term(st.value, st), "log(self.norm(self.MAP))") is not None
         return state
     return walk(init.body, {"mode": None, "norm": None})
+
+
+def _mirror_limits(prog, uc):
+    """The model is mirror symmetric: density(x0 + d; f) = density(x0 - d; -f).  Every (lower, upper) pair of limits built from
+    the fitted parameters must respect it: (centre - lower) equals (upper - centre) with the skew parameter negated.
+    A grid that is stretched for one sign of the skew only cuts off the long tail of the other."""
+    out = []
+    pats = [("self.MAP[3]", "F"), ("self.MAP[1]", "S"), ("self.MAP[0]", "X0"), ("self.mode", "X0"), ("self.MAP[2]", "V"),
+            ("self.MAP[4]", "K"), ("self.MAP[5]", "Q")]
+
+    def check(construct, lo_t, hi_t, line):
+        lo_a, _ = abstract(lo_t, pats)
+        hi_a, _ = abstract(hi_t, pats)
+
+        class Neg(ast.NodeTransformer):
+            def visit_Name(self, x):
+                return ast.UnaryOp(op=ast.USub(), operand=x) if x.id == "F" else x
+        hi_m = ast.fix_missing_locations(Neg().visit(ast.parse(ast.unparse(hi_a), mode="eval").body))
+        ok, why = False, ""
+        try:
+            X0 = R.sym("X0")
+            offL = X0 - anf_of(lo_a)
+            offU_m = anf_of(hi_m) - X0
+            ok = offL.eq(offU_m)
+            why = f"centre - lower = {offL};  (upper - centre) with f -> -f = {offU_m}"
+        except Unsupported as e:
+            why = f"outside the algebra: {e}"
+        return struct_ob("mirror-symmetric-limits", construct, ok,
+                         "lower and upper limits must be mirror images under f -> -f (the model's own symmetry): " + why,
+                         UNI, line, tier="F")
+    init = uc.methods["__init__"]
+    rz = Resolver(init, prog, uc.module, uc)
+    lim = {U(s_.targets[0]): s_ for s_ in ast.walk(init) if isinstance(s_, ast.Assign) and U(s_.targets[0]) in ("self.lwr_limit", "self.upr_limit")}
+    if len(lim) == 2:
+        out.append(check(qual(uc, init) + "[lwr_limit/upr_limit]", rz.term(lim["self.lwr_limit"].value, lim["self.lwr_limit"]),
+                         rz.term(lim["self.upr_limit"].value, lim["self.upr_limit"]), lim["self.lwr_limit"].lineno))
+    mo = uc.methods.get("moments")
+    if mo is not None:
+        rm = Resolver(mo, prog, uc.module, uc)
+        grids = []
+        for n in ast.walk(mo):
+            if isinstance(n, ast.Call) and U(n.func) == "self" and n.args:
+                t = rm.term(n.args[0], rm.stmt_of(n))
+                b = pmatch(t, "linspace(_a, _b, _n)")
+                if b is not None:
+                    grids.append((ast.parse(b["_a"], mode="eval").body, ast.parse(b["_b"], mode="eval").body, n.lineno))
+        for a_, b_, line in grids[:1]:
+            out.append(check(qual(uc, mo) + "[integration grid]", a_, b_, line))
+    return out
 
 
 def _cdf_ordering(prog, uc, cf):
@@ -277,9 +326,14 @@ def run(prog, tier):
     obs.append(struct_ob("normaliser-consistent", qual(uc, init), sync["norm"] is True and ok_call,
                          f"the density must be exp(log_pdf_model(x, MAP) - log norm(MAP)) with the normaliser recomputed after the last "
                          f"assignment of MAP on every constructor path (state at exit: {sync}; density term ok: {ok_call})", UNI, init.lineno))
+    obs.extend(_mirror_limits(prog, uc))
     # ---------------------------------------------------------------- cdf ordering
     cf = uc.methods.get("cdf")
     obs.append(_cdf_ordering(prog, uc, cf))
+
+    obs.extend(dtype_hazard_obligations(prog, "float-arithmetic", ['inference/pdf/base.py', 'inference/pdf/unimodal.py', 'inference/pdf/kde.py']))
+
+    obs.extend(memo_obligations(prog, "cache-key", [prog.cls("GaussianKDE"), prog.cls("UnimodalPdf")]))
 
     meta = {
         "explanation": "Units-of-measure / shift / log-domain type inference over the estimator classes with the sample typed X^1 and "
